@@ -19,7 +19,7 @@ for i in ids:
     try:
         for p in order:
             t0 = time.time()
-            r = subprocess.run(['./check', p, 'quick'], capture_output=True, text=True)
+            r = subprocess.run(['./check', p, 'quick'], capture_output=True, text=True, errors='replace')
             codes[p] = r.returncode
             if r.returncode == 1 and 'VIOLATION property=' + p in r.stdout:
                 m = re.search(r'^violation \[(C\d+)\] (\S+)', r.stdout, re.M)
